@@ -282,6 +282,8 @@ def _norm(p):
 
 
 def _normalise_paths(j):
+    local_fn_ids = {f["id"] for f in j.get("fns", [])} | {b["id"] for b in j.get("bodies", [])}
+
     def fix_callee(c):
         if not isinstance(c, dict):
             return
@@ -291,6 +293,11 @@ def _normalise_paths(j):
         r = c.get("resolved")
         if isinstance(r, dict) and "path" in r:
             r["path"] = _norm(r["path"])
+            # a method of a crate-local trait called on a type whose crate-local impl the compiler resolved (`lock.close_after_last(..)`
+            # of a private extension trait): for every rule this is a call of that impl's method, like a call of a free helper
+            if c.get("trait") and c.get("local") and r.get("local") and r["path"] != c.get("path") and r["path"] in local_fn_ids:
+                c["trait_method"] = c["path"]
+                c["path"] = r["path"]
 
     def fix_op(o):
         if isinstance(o, dict) and o.get("k") == "const" and "fn" in o:
